@@ -35,6 +35,8 @@ OBLIGATIONS = [
     "C12_self_consistent", "C12_tie_end_of_fit", "C12_roundtrip_partial", "C12_roundtrip_exact", "C12_idempotent_partial",
     "C12_instance_name_refuted", "C12_instance_name_case_refuted", "C12_univariate_default_refuted",
     "C12_scalar_noise_shape_refuted", "C12_float64_refuted",
+    # composition with C01 (coq/theories/Compose/): the store hypotheses discharged on the real State model
+    "C12_store_interface_discharged", "C12_self_consistent_state", "C12_self_consistent_reachable", "C12_state_example",
 ]
 
 SCRATCH = Path(f"/tmp/scratch/c12-check-{os.getpid()}/run")
